@@ -12,7 +12,7 @@ the time until the deadline is left to be armed.  The proof goes through `DelayQ
 **The clamp and the re-arm.**  `insert_request` arms the timer with `min (deadline - now) MAX_DEADLINE_TIMEOUT`
 (`clampTimeout`) and keeps the rest as the entry's `remainder`; when the timer fires with `remainder ≠ 0`,
 `poll_expired` arms a new timer with (a clamped part of) what is left of the remainder after subtracting how late
-the expiry is handled, instead of failing the request (`Client.rearm`); if nothing is left it fails the request.  An earlier version of the code clamped without re-arming; the witness found then (a call with a
+the expiry is handled (measured from the entry's exact due time `dueAt`), instead of failing the request (`Client.rearm`); if nothing is left it fails the request.  An earlier version of the code clamped without re-arming; the witness found then (a call with a
 deadline two clamps away failing after one) is now `C05_far_deadline_witness`: pending after one clamp, failed at the
 deadline.
 
@@ -50,29 +50,46 @@ theorem C05_timer_not_before_deadline (m bufCap tcap : Nat) (coupled : Bool) (op
   have := (DelayQ.Has.functional h.t.wf hw ⟨d, hd, hk, rfl, rfl⟩).2
   rw [this] at hdl; exact ⟨hdl, fun h0 => by omega⟩
 
+/-- **The armed timer and the exact due time.**  In every reachable state, for an in-flight entry and its armed
+timer: the entry's `dueAt` (`timer_due`, the exact `now + timeout` recorded when the timer was armed) plus its
+`remainder` reach the deadline and do not exceed `max deadline now` (the sum is `max deadline (time of insertion)` and
+constant across re-arms), and the queue's timer is the millisecond ceiling of `dueAt`. -/
+theorem C05_timer_is_ceiling_of_due (m bufCap tcap : Nat) (coupled : Bool) (ops : List COp)
+    (c : Sys) (hc : c = ops.foldl applyOp (initSys m bufCap tcap coupled)) (en : Entry) (hen : en ∈ c.s.inflight)
+    (d : DqEntry) (hd : d ∈ c.s.timers.entries ++ c.s.timers.expired) (hk : d.key = en.timerKey) :
+    en.ctx.deadline ≤ en.dueAt + en.remainder ∧ en.dueAt + en.remainder ≤ max en.ctx.deadline c.now ∧
+    en.dueAt ≤ d.whenMs * nsPerMs ∧ d.whenMs * nsPerMs < en.dueAt + nsPerMs := by
+  subst hc
+  have h := inv_reach m bufCap tcap coupled ops
+  obtain ⟨w, hw, -⟩ := h.t.e2t en hen
+  have hv := (DelayQ.Has.functional h.t.wf hw ⟨d, hd, hk, rfl, rfl⟩)
+  exact h.t.due en hen d.whenMs ⟨d, hd, hk, hv.1.symm, rfl⟩
+
 /-- **C05 never early, the expiry itself.**  In every reachable state, if polling the `DelayQueue` at the current
-time yields a timer, that timer is due (`whenMs * 1e6 ≤ now`; `late = now - whenMs * 1e6` is how late it is handled)
-and belongs to exactly one in-flight entry — the one `poll_expired` finds —, and timer plus `remainder` reach the
-entry's deadline.  If the entry's `remainder` exceeds the lateness the iteration does *not* fail the request (it
-re-arms the timer with what is left, or panics in `DelayQueue::insert`); the iteration fails the request only if
-`remainder ≤ late`, and then the request's deadline has passed. -/
+time yields a timer, that timer is due (`whenMs * 1e6 ≤ now`) and belongs to exactly one in-flight entry — the one
+`poll_expired` finds —, whose exact due time `dueAt` is at most one millisecond before the timer and, with the
+`remainder`, reaches the deadline.  `late = now - dueAt` is how late the expiry is handled.  If the entry's `remainder`
+exceeds the lateness the iteration does *not* fail the request (it re-arms the timer with what is left, or panics in
+`DelayQueue::insert`); the iteration fails the request only if `remainder ≤ late`, and then the request's deadline has
+passed. -/
 theorem C05_expiry_only_when_due (m bufCap tcap : Nat) (coupled : Bool) (ops : List COp)
     (c : Sys) (hc : c = ops.foldl applyOp (initSys m bufCap tcap coupled)) (e : DqEntry)
     (h : (c.s.timers.pollExpired c.now).2 = .expired e) :
     e.whenMs * nsPerMs ≤ c.now ∧ ∃ en ∈ c.s.inflight, en.id = e.val ∧ findEntry c.s e.val = some en ∧
-      en.ctx.deadline ≤ e.whenMs * nsPerMs + en.remainder ∧
-      (c.now - e.whenMs * nsPerMs < en.remainder → ∀ s', expireStep c.s c.now ≠ .done s' true) ∧
-      (en.remainder ≤ c.now - e.whenMs * nsPerMs → en.ctx.deadline ≤ c.now) := by
+      en.ctx.deadline ≤ en.dueAt + en.remainder ∧
+      en.dueAt ≤ e.whenMs * nsPerMs ∧ e.whenMs * nsPerMs < en.dueAt + nsPerMs ∧
+      (c.now - en.dueAt < en.remainder → ∀ s', expireStep c.s c.now ≠ .done s' true) ∧
+      (en.remainder ≤ c.now - en.dueAt → en.ctx.deadline ≤ c.now) := by
   subst hc
   have hi := inv_reach m bufCap tcap coupled ops
-  obtain ⟨en, hen, e1, e2, e3, -⟩ := (hi.t.expired hi.i.inNodup).1 e h
+  obtain ⟨en, hen, e1, e2, e3, -, d1, d2, d3, d4⟩ := (hi.t.expired hi.i.inNodup).1 e h
   have hf : findEntry (ops.foldl applyOp (initSys m bufCap tcap coupled)).s e.val = some en := by
     cases hf : findEntry (ops.foldl applyOp (initSys m bufCap tcap coupled)).s e.val with
     | none => exact absurd e1 (findEntry_none_ne hf en hen)
     | some en' =>
       obtain ⟨hen', hid'⟩ := findEntry_some_mem hf
       rw [eq_of_nodup_map (·.id) hi.i.inNodup hen' hen (by rw [hid', e1])]
-  refine ⟨e3, en, hen, e1, hf, e2, ?_, fun h0 => by omega⟩
+  refine ⟨e3, en, hen, e1, hf, d1, d3, d4, ?_, fun h0 => by omega⟩
   intro hlt s'
   rw [expireStep_of_expired h hf, if_pos (by simp only [bne_iff_ne, ne_eq]; omega)]
   exact rearm_ne_done_true _ _ _ _ _ _ _
@@ -192,6 +209,22 @@ theorem C05_late_dispatch_witness :
     CEv.obs (.resolved 0 .deadline (3 * clampNs)) ∈ trace (initSys 1 1 1 true) c05LateOps ∧
     (c05LateOps.foldl applyOp (initSys 1 1 1 true)).s.timers.len = 0 ∧
     (monC05NeverEarly (trace (initSys 1 1 1 true) c05LateOps)).ok = true := by decide
+
+/-- a call made at 1 ns with deadline `clampNs + 10 ms`; the dispatch is polled just before the first timer's tick
+would be 1 ms late, then 9 ms later -/
+def c05DriftOps : List COp :=
+  [.advance 1, .call 0 (clampNs + 10000000) ⟨1, .given 1, true⟩ 7, .pollCall 0, .pollDispatch,
+   .advance (clampNs + 1000000 - 1), .pollDispatch, .advance 9000000, .pollDispatch, .pollCall 0]
+
+set_option maxRecDepth 100000 in
+/-- **No drift.**  The first timer (one clamp, armed at 1 ns) is due at `clampNs + 1 ns`, fires at the next
+millisecond tick and is re-armed there for the rest (10 ms − 1 ns) *minus the lateness measured from the exact due
+time*; the call resolves with `DeadlineExceeded` at exactly its deadline `clampNs + 10 ms`.  (Measuring the lateness
+from the queue's ms-rounded deadline, as the re-arm first did, lost the sub-millisecond part at every re-arm: the
+call resolved 1 ms late.) -/
+theorem C05_no_drift_witness :
+    CEv.obs (.resolved 0 .deadline (clampNs + 10000000)) ∈ trace (initSys 1 1 1 true) c05DriftOps ∧
+    (monC05NeverEarly (trace (initSys 1 1 1 true) c05DriftOps)).ok = true := by decide
 
 /-- The model variant "clamp without re-arm" (the code between the two fixes): every entry forgets its remainder. -/
 def forgetRemainders (c : Sys) : Sys :=
